@@ -131,4 +131,10 @@ type Link struct {
 	"test/internal/zzverif4/giva/giva.go":     "package giva\n\nimport (\n\t\"time\"\n\n\t\"github.com/csgura/fp/show\"\n)\n\ntype Derives[T any] interface{}\n\nvar Duration = show.New(func(d time.Duration) string {\n\treturn d.String()\n})\n",
 	"test/internal/zzverif4/givb/givb.go":     "package givb\n\nimport (\n\t\"fmt\"\n\t\"time\"\n\n\t\"github.com/csgura/fp/show\"\n)\n\ntype Derives[T any] interface{}\n\nvar Duration = show.New(func(d time.Duration) string {\n\treturn fmt.Sprintf(\"%dns\", int64(d))\n})\n\ntype Pad0 struct{ V int }\n\nvar ShowPad0 = show.New(func(p Pad0) string { return fmt.Sprint(p.V) })\n\ntype Pad1 struct{ V int }\n\nvar ShowPad1 = show.New(func(p Pad1) string { return fmt.Sprint(p.V) })\n\ntype Pad2 struct{ V int }\n\nvar ShowPad2 = show.New(func(p Pad2) string { return fmt.Sprint(p.V) })\n\ntype Pad3 struct{ V int }\n\nvar ShowPad3 = show.New(func(p Pad3) string { return fmt.Sprint(p.V) })\n\ntype Pad4 struct{ V int }\n\nvar ShowPad4 = show.New(func(p Pad4) string { return fmt.Sprint(p.V) })\n\ntype Pad5 struct{ V int }\n\nvar ShowPad5 = show.New(func(p Pad5) string { return fmt.Sprint(p.V) })\n\ntype Pad6 struct{ V int }\n\nvar ShowPad6 = show.New(func(p Pad6) string { return fmt.Sprint(p.V) })\n\ntype Pad7 struct{ V int }\n\nvar ShowPad7 = show.New(func(p Pad7) string { return fmt.Sprint(p.V) })\n\ntype Pad8 struct{ V int }\n\nvar ShowPad8 = show.New(func(p Pad8) string { return fmt.Sprint(p.V) })\n\ntype Pad9 struct{ V int }\n\nvar ShowPad9 = show.New(func(p Pad9) string { return fmt.Sprint(p.V) })\n\ntype Pad10 struct{ V int }\n\nvar ShowPad10 = show.New(func(p Pad10) string { return fmt.Sprint(p.V) })\n\ntype Pad11 struct{ V int }\n\nvar ShowPad11 = show.New(func(p Pad11) string { return fmt.Sprint(p.V) })\n\ntype Pad12 struct{ V int }\n\nvar ShowPad12 = show.New(func(p Pad12) string { return fmt.Sprint(p.V) })\n\ntype Pad13 struct{ V int }\n\nvar ShowPad13 = show.New(func(p Pad13) string { return fmt.Sprint(p.V) })\n\ntype Pad14 struct{ V int }\n\nvar ShowPad14 = show.New(func(p Pad14) string { return fmt.Sprint(p.V) })\n\ntype Pad15 struct{ V int }\n\nvar ShowPad15 = show.New(func(p Pad15) string { return fmt.Sprint(p.V) })\n\ntype Pad16 struct{ V int }\n\nvar ShowPad16 = show.New(func(p Pad16) string { return fmt.Sprint(p.V) })\n\ntype Pad17 struct{ V int }\n\nvar ShowPad17 = show.New(func(p Pad17) string { return fmt.Sprint(p.V) })\n\ntype Pad18 struct{ V int }\n\nvar ShowPad18 = show.New(func(p Pad18) string { return fmt.Sprint(p.V) })\n\ntype Pad19 struct{ V int }\n\nvar ShowPad19 = show.New(func(p Pad19) string { return fmt.Sprint(p.V) })\n\ntype Pad20 struct{ V int }\n\nvar ShowPad20 = show.New(func(p Pad20) string { return fmt.Sprint(p.V) })\n\ntype Pad21 struct{ V int }\n\nvar ShowPad21 = show.New(func(p Pad21) string { return fmt.Sprint(p.V) })\n\ntype Pad22 struct{ V int }\n\nvar ShowPad22 = show.New(func(p Pad22) string { return fmt.Sprint(p.V) })\n\ntype Pad23 struct{ V int }\n\nvar ShowPad23 = show.New(func(p Pad23) string { return fmt.Sprint(p.V) })\n\ntype Pad24 struct{ V int }\n\nvar ShowPad24 = show.New(func(p Pad24) string { return fmt.Sprint(p.V) })\n\ntype Pad25 struct{ V int }\n\nvar ShowPad25 = show.New(func(p Pad25) string { return fmt.Sprint(p.V) })\n\ntype Pad26 struct{ V int }\n\nvar ShowPad26 = show.New(func(p Pad26) string { return fmt.Sprint(p.V) })\n\ntype Pad27 struct{ V int }\n\nvar ShowPad27 = show.New(func(p Pad27) string { return fmt.Sprint(p.V) })\n\ntype Pad28 struct{ V int }\n\nvar ShowPad28 = show.New(func(p Pad28) string { return fmt.Sprint(p.V) })\n\ntype Pad29 struct{ V int }\n\nvar ShowPad29 = show.New(func(p Pad29) string { return fmt.Sprint(p.V) })\n\ntype Pad30 struct{ V int }\n\nvar ShowPad30 = show.New(func(p Pad30) string { return fmt.Sprint(p.V) })\n\ntype Pad31 struct{ V int }\n\nvar ShowPad31 = show.New(func(p Pad31) string { return fmt.Sprint(p.V) })\n\ntype Pad32 struct{ V int }\n\nvar ShowPad32 = show.New(func(p Pad32) string { return fmt.Sprint(p.V) })\n\ntype Pad33 struct{ V int }\n\nvar ShowPad33 = show.New(func(p Pad33) string { return fmt.Sprint(p.V) })\n\ntype Pad34 struct{ V int }\n\nvar ShowPad34 = show.New(func(p Pad34) string { return fmt.Sprint(p.V) })\n\ntype Pad35 struct{ V int }\n\nvar ShowPad35 = show.New(func(p Pad35) string { return fmt.Sprint(p.V) })\n\ntype Pad36 struct{ V int }\n\nvar ShowPad36 = show.New(func(p Pad36) string { return fmt.Sprint(p.V) })\n\ntype Pad37 struct{ V int }\n\nvar ShowPad37 = show.New(func(p Pad37) string { return fmt.Sprint(p.V) })\n\ntype Pad38 struct{ V int }\n\nvar ShowPad38 = show.New(func(p Pad38) string { return fmt.Sprint(p.V) })\n\ntype Pad39 struct{ V int }\n\nvar ShowPad39 = show.New(func(p Pad39) string { return fmt.Sprint(p.V) })\n",
 	"test/internal/zzverif4/target/target.go": "package target\n\nimport (\n\t\"time\"\n\n\t\"github.com/csgura/fp\"\n\t\"github.com/csgura/fp/show\"\n\t\"github.com/csgura/fp/test/internal/zzverif4/giva\"\n\t\"github.com/csgura/fp/test/internal/zzverif4/givb\"\n)\n\n//go:generate go run github.com/csgura/fp/cmd/gombok\n\n// @fp.ImportGiven\nvar _ giva.Derives[fp.Show[any]]\n\n// @fp.ImportGiven\nvar _ givb.Derives[fp.Show[any]]\n\ntype Job struct {\n\tName    string\n\tTimeout time.Duration\n}\n\n// @fp.Derive\nvar _ show.Derives[fp.Show[Job]]\n",
+	// template_gen directives for ONE output file spread over several source files: the order of
+	// the generated groups must not depend on how the files are scanned
+	"test/internal/zzverif5/b_ops.go": "package zzverif5\n\nimport \"github.com/csgura/fp/genfp\"\n\n//go:generate go run github.com/csgura/fp/internal/generator/template_gen\n\n// @internal.Generate\nvar _ = genfp.GenerateFromUntil{\n\tFile:  \"a_gen.go\",\n\tFrom:  1,\n\tUntil: 3,\n\tTemplate: `\nfunc Bops{{.N}}() string { return \"Bops{{.N}}\" }\n`,\n}\n",
+	"test/internal/zzverif5/c_ops.go": "package zzverif5\n\nimport \"github.com/csgura/fp/genfp\"\n\n// @internal.Generate\nvar _ = genfp.GenerateFromUntil{\n\tFile:  \"a_gen.go\",\n\tFrom:  1,\n\tUntil: 3,\n\tTemplate: `\nfunc Cops{{.N}}() string { return \"Cops{{.N}}\" }\n`,\n}\n",
+	"test/internal/zzverif5/d_ops.go": "package zzverif5\n\nimport \"github.com/csgura/fp/genfp\"\n\n// @internal.Generate\nvar _ = genfp.GenerateFromUntil{\n\tFile:  \"a_gen.go\",\n\tFrom:  1,\n\tUntil: 3,\n\tTemplate: `\nfunc Dops{{.N}}() string { return \"Dops{{.N}}\" }\n`,\n}\n",
+	"test/internal/zzverif5/e_ops.go": "package zzverif5\n\nimport \"github.com/csgura/fp/genfp\"\n\n// @internal.Generate\nvar _ = genfp.GenerateFromUntil{\n\tFile:  \"z_gen.go\",\n\tFrom:  1,\n\tUntil: 3,\n\tTemplate: `\nfunc Eops{{.N}}() string { return \"Eops{{.N}}\" }\n`,\n}\n",
 }
